@@ -285,7 +285,9 @@ def rule_concluded_per_conclusion(db: ProgramDB) -> List[Instance]:
                     parents = {id(ch): par for par in ast.walk(comp.elt) for ch in ast.iter_child_nodes(par)}
                     for nm in [x for x in ast.walk(comp.elt) if isinstance(x, ast.Name) and x.id == lv]:
                         par = parents.get(id(nm))
-                        if isinstance(par, ast.Attribute) and par.value is nm:
+                        if isinstance(par, ast.Attribute) and par.value is nm and par.attr in ("_id_", "_node_"):
+                            whole = True          # the identifier of the conclusion object itself
+                        elif isinstance(par, ast.Attribute) and par.value is nm:
                             used_fields.add(par.attr)
                         else:
                             whole = True
